@@ -223,6 +223,17 @@ def features(d=None):
                          {'aggregates': [A2],
                           'resource_provider_generation': 77}),
         st_in(409), st_in(400), 1)
+    for stale in (0, -1, gR + 1, gR - 1):
+        if stale == gR:
+            continue
+        add('1.19 stale generation %s on PUT aggregates of a provider that '
+            'has moved on is 409' % ('0' if stale == 0 else
+                                     'g%+d' % (stale - gR) if stale > 0
+                                     else 'negative'), 19,
+            lambda v, s, stale=stale: Req(
+                'PUT', '/resource_providers/%s/aggregates' % R, s,
+                {'aggregates': [A2], 'resource_provider_generation': stale}),
+            st_in(409, 400) if stale < 0 else st_in(409), st_in(400), 1)
     # 1.20 POST rp
     add('1.20 POST resource_providers returns 200 + body', 20,
         lambda v, s: Req('POST', '/resource_providers', s,
